@@ -27,9 +27,14 @@ TREE = [
     # names that are not valid UTF-8 and differ only in the invalid byte
     {"p": "r/n/caf\udce9", "k": "file", "c": ["base", 300, 3]}, {"p": "r/n/caf\udce8", "k": "file", "c": ["base", 300, 3]},
     {"p": "r/m/caf\udce9", "k": "file", "c": ["base", 300, 3]},
+    # several files of one group in ONE directory: their destinations share a parent directory under DIR
+    {"p": "r/keep/q0", "k": "file", "c": ["base", 900, 4]}, {"p": "r/p/q1", "k": "file", "c": ["base", 900, 4]},
+    {"p": "r/p/q2", "k": "file", "c": ["base", 900, 4]}, {"p": "r/p/q3", "k": "file", "c": ["base", 900, 4]},
 ]
 PLACEMENTS = ["outside", "inside", "other_device", "relative", "relative_other_cwd", "dotdot_through_symlink", "trailing_slash", "other_mount"]
-PREPOP = ["empty", "file", "dir", "dangling_symlink", "symlink_to_file", "fifo", "empty_dirs", "hardlink_of_source", "symlinked_parent", "partial_dirs"]
+# (file_later / symlink_later: the entry in the way is at the destination of the LAST of several files that go into one
+# directory - the files before it are moved there without trouble first; file_middle: of the middle one)
+PREPOP = ["file_later", "symlink_later", "file_middle", "empty", "file", "dir", "dangling_symlink", "symlink_to_file", "fifo", "empty_dirs", "hardlink_of_source", "symlinked_parent", "partial_dirs"]
 
 
 def prepare(tier):
@@ -42,7 +47,7 @@ def cases(tier, seed):
         for pp in PREPOP:
             out.append({"placement": pl, "prepop": pp, "sweep": False, "tier": tier})
     for pl in ("outside", "other_device", "other_mount"):
-        for pp in ("empty", "file", "dangling_symlink", "empty_dirs", "partial_dirs"):
+        for pp in ("empty", "file", "dangling_symlink", "empty_dirs", "partial_dirs") + (("file_later",) if pl != "other_mount" else ()):
             out.append({"placement": pl, "prepop": pp, "sweep": True, "tier": tier})
     return out
 
@@ -104,6 +109,11 @@ def _evaluate(case):
             ps = [C.u(p) for p in g["paths"]]
             droppable += ps[1:]
         collide = droppable[0]
+        same_dir = [p for p in droppable if os.path.dirname(p).endswith("/r/p")]
+        if case["prepop"] in ("file_later", "symlink_later", "file_middle"):
+            if len(same_dir) < 3:
+                raise C.MachineryError("tree has no directory with three droppable files: %s" % droppable)
+            collide = same_dir[1] if case["prepop"] == "file_middle" else same_dir[-1]
         outside_victim = os.path.join(sc.root, "victim")
 
         run_cwd = None
@@ -146,9 +156,13 @@ def _evaluate(case):
             elif pp != "empty":
                 tp = tdir + collide
                 os.makedirs(os.path.dirname(tp), exist_ok=True)
-                if pp == "file":
+                if pp in ("file", "file_later", "file_middle"):
                     with open(tp, "wb") as f:
                         f.write(b"pre-existing file")
+                elif pp == "symlink_later":
+                    with open(outside_victim, "wb") as f:
+                        f.write(b"victim content")
+                    os.symlink(outside_victim, tp)
                 elif pp == "dir":
                     os.makedirs(tp)
                     with open(os.path.join(tp, "inner"), "wb") as f:
@@ -283,4 +297,5 @@ def _evaluate(case):
                        "history": [repr(e).replace(sc.root, "") for e in rec["events"]][:12]}}
 
 
+RULE += ' Since round 12 also: three files of one group in one directory, the entry in the way at the destination of the last / middle one (the earlier ones are moved into that directory first).'
 RULE += ' Since round 11 also: DIR pre-populated with the upper part of the hierarchy in private modes (modes of pre-existing directories compared).'
